@@ -28,6 +28,19 @@ Qed.
 Lemma sim_distances_own (s : nbr) cx : sim_distances N s cx = map (own_cache s) cx.
 Proof. reflexivity. Qed.
 
+(* a test row without neighbours (fix D37): the simulator class records, with the drawn arm, exactly the expectations the library's
+   predict_expectations reports for that row - the stored all-NaN dictionary - and no neighbourhood statistics *)
+Theorem sim_empty_neighbourhood_reports_the_library_expectations (s : nbr) (l : lp) quick raw seed row orc :
+  neighborhood N s row orc = Some [] -> nnprob_len_ok s = true ->
+  (exists p, simnbr_row N aeqb RG s l quick raw seed row (own_cache s row) orc = Some ((p, (n_exp s, []), O), l)) /\
+  (exists r, nbr_row N aeqb RG s l seed row orc false = Some (inr (n_exp s), r)).
+Proof.
+  intros Hn Hok. split.
+  - unfold simnbr_row. rewrite sim_neighborhood_own, Hn, Hok. cbn [negb].
+    destruct (draw_z RG (create RG seed) (RqChoice (length (n_arms s)) (n_nnprob s))) as [v g']. eexists. reflexivity.
+  - destruct (empty_neighbourhood N aeqb RG s l seed row orc Hn) as [H _]. exact H.
+Qed.
+
 Variable good : lp -> Prop.
 
 Definition srow_rel (r1 : option (srow * lp)) (r2 : option (res * lp)) : Prop :=
